@@ -35,6 +35,7 @@ type Query struct {
 
 type FuncCtx struct {
 	eng        *Engine
+	curPos     token.Pos
 	fn         *ssa.Function
 	fc         *FuncContract
 	pc         *PkgContracts
@@ -1499,6 +1500,12 @@ func (fx *FuncCtx) execUnOp(st *State, in *ssa.UnOp) {
 					fx.decls.declare("CH$signal", "(Array Int Bool)")
 					st.assume(sx("select", "CH$signal", v.C[0]))
 					fx.trusted["field "+typeStr(x.L.Root)+"."+first+" is a signal channel: it is only closed, never sent to"] = true
+				} else if cls == "openchan" {
+					// a channel that is never closed and never nil (declared; every close() under contract is checked against it)
+					fx.decls.declare("CH$open", "(Array Int Bool)")
+					st.assume(sx("select", "CH$open", v.C[0]))
+					st.assume(not(eq(v.C[0], "0")))
+					fx.trusted["field "+typeStr(x.L.Root)+"."+first+" is never closed (close() calls in functions under contract are checked; others are not)"] = true
 				}
 			}
 			if x.L.Kind == LocField && len(v.C) == 4 {
